@@ -186,6 +186,8 @@ impl Range {
             if boxed_range.is_ok() {
                 let range = boxed_range.unwrap();
                 let boxed_read = FileExt::read_file_partially(filepath, range.start, range.end);
+                #[cfg(rws_verif)]
+                crate::verif_hooks::point("range.after_partial_read");
                 if boxed_read.is_ok() {
 
                     let content_type = MimeType::detect_mime_type(filepath);
@@ -214,6 +216,8 @@ impl Range {
     }
 
     pub fn get_content_range_list(request_uri: &str, range: &Header) -> Result<Vec<ContentRange>, Error> {
+        #[cfg(rws_verif)]
+        crate::verif_hooks::point("range.get_content_range_list.enter");
         let mut content_range_list : Vec<ContentRange> = vec![];
 
         let url_array = ["http://", "localhost", &request_uri.replace(&FileExt::get_path_separator(), SYMBOL.slash)];
